@@ -201,17 +201,18 @@ class Model():
 
         if not hasattr(asset, 'name'):
             asset.name = asset.type + ':' + str(asset.id)
-        else:
-            if asset.name in self.asset_names:
-                if allow_duplicate_names:
-                    # The name with the id appended can be taken as well
-                    while asset.name in self.asset_names:
-                        asset.name = asset.name + ':' + str(asset.id)
-                else:
-                    raise ValueError(
-                        f'Asset name {asset.name} is a duplicate'
-                        ' and we do not allow duplicates.'
-                    )
+
+        # The default name can be taken by another asset as well
+        if asset.name in self.asset_names:
+            if allow_duplicate_names:
+                # The name with the id appended can be taken as well
+                while asset.name in self.asset_names:
+                    asset.name = asset.name + ':' + str(asset.id)
+            else:
+                raise ValueError(
+                    f'Asset name {asset.name} is a duplicate'
+                    ' and we do not allow duplicates.'
+                )
         # Reserve the id and name only once the asset has been accepted
         self.asset_ids.add(asset.id)
         self.next_id = max(asset.id + 1, self.next_id)
